@@ -569,17 +569,27 @@ def mon_resp(c):
                 # a failed write ends the connection from the write loop while the read loop may still be
                 # handing out the frames of this step: the response counts as sent only if it was complete before
                 ended = i - 1
-        for (k, sid, a) in client_frames(diag):
+        cfs = client_frames(diag)
+        for (k, sid, a) in cfs:
             if k == "H":
                 if sid % 2 == 0 or sid <= last_sid:
                     v.append(("stream-id-not-fresh-odd-increasing", "stream %d after %d" % (sid, last_sid)))
                 last_sid = sid
                 if op == "req":
                     tag_sid[f[3]] = sid
-                    got = a[3].split(",") if len(a) > 3 else []
                     # a[0]=es a[1]=eh a[2]=decode status a[3]=fields ; diag form appends len=
+                    # a block longer than the server's MAX_FRAME_SIZE goes on in CONTINUATION frames (C<sid>:eh:status:fields):
+                    # the scripted server decodes it, and prints the fields, when END_HEADERS arrives
+                    status, fields = a[2], (a[3] if len(a) > 3 else "")
+                    if a[1] == "0":
+                        ends = [x for x in cfs if x[0] == "C" and x[1] == sid and x[2][0] == "1"]
+                        if not ends:
+                            v.append(("request-header-block-never-ended", "stream %d" % sid))
+                            continue
+                        status, fields = ends[0][2][1], (ends[0][2][2] if len(ends[0][2]) > 2 else "")
+                    got = fields.split(",") if fields else []
                     want = spec_request_fields(f)
-                    if a[2] != "ok":
+                    if status != "ok":
                         v.append(("request-header-block-undecodable", "stream %d" % sid))
                     elif got != want:
                         v.append(("request-not-sent-as-given", "stream %d got %s want %s" % (sid, ",".join(got)[:300], ",".join(want)[:300])))
@@ -702,15 +712,51 @@ def mon_settings(c):
                     v.append(("header-table-size-exceeded", "stream %d: block not decodable by a decoder limited to %d" % (sid, limit[1])))
                 ln = [x for x in a if x.startswith("len=")]
                 if ln and int(ln[0][4:]) > limit[5]:
-                    v.append(("headers-exceed-max-frame-size", "stream %d" % sid))
+                    v.append(("headers-exceed-max-frame-size", "stream %d frame %s > %d" % (sid, ln[0][4:], limit[5])))
                 if a[0] == "1":
                     pass
+            if k == "C":
+                if a[1] != "ok":
+                    v.append(("header-table-size-exceeded", "stream %d: block not decodable by a decoder limited to %d" % (sid, limit[1])))
+                ln = [x for x in a if x.startswith("len=")]
+                if ln and int(ln[0][4:]) > limit[5]:
+                    v.append(("continuation-exceeds-max-frame-size", "stream %d frame %s > %d" % (sid, ln[0][4:], limit[5])))
             if k == "D" and int(a[0]) > limit[5]:
                 v.append(("data-exceeds-max-frame-size", "stream %d frame %s > %d" % (sid, a[0], limit[5])))
             if k == "R":
                 open_s.discard(sid)
         if op == "timeout":
             pass
+    return v
+
+
+def mon_header_blocks(c):
+    """RFC 7540 4.3 / 6.10 for what the client writes: a HEADERS frame without END_HEADERS is followed, on its stream, by
+    CONTINUATION frames until one carries END_HEADERS, and by nothing else on the connection meanwhile (the harness sees
+    the wire order and reports `hbi=<stream>:t<type>` for a frame inside a block; the tokens of a step are sorted by
+    stream, the frames of one stream stay in order); a CONTINUATION frame occurs nowhere else and is never empty."""
+    v = []
+    open_blk = set()
+    for (f, cmp_, diag, _) in c.steps:
+        m = re.search(r"(?:^| )hbi=(\S+)", diag)
+        if m:
+            v.append(("header-block-interrupted", "frames inside a header block (block stream:frame type): %s" % m.group(1)))
+        for (k, sid, a) in client_frames(diag):
+            if sid in open_blk and k != "C":
+                v.append(("header-block-interrupted", "stream %d: %s frame inside its header block" % (sid, k)))
+                open_blk.discard(sid)
+            if k == "H":
+                if len(a) > 1 and a[1] == "0":
+                    open_blk.add(sid)
+            elif k == "C":
+                if sid not in open_blk:
+                    v.append(("continuation-outside-header-block", "stream %d" % sid))
+                if "len=0" in a:
+                    v.append(("empty-continuation", "stream %d" % sid))
+                if a and a[0] == "1":
+                    open_blk.discard(sid)
+    if open_blk and not any(s[1].startswith(("stuck", "dead")) or " dead " in " " + s[1] + " " or "dead" in s[2] for s in c.steps):
+        v.append(("header-block-unfinished", "streams %s" % sorted(open_blk)))
     return v
 
 
@@ -956,7 +1002,7 @@ def mon_resolve_deadlock_only(c):
 
 
 def run_c12(ctx):
-    out = run_areas(ctx, ["cliresolve", "cliwfail", "clirace", "clistall"], [mon_resolve, mon_stall, mon_errvalue],
+    out = run_areas(ctx, ["cliresolve", "cliwfail", "clirace", "clistall"], [mon_resolve, mon_stall, mon_errvalue, mon_header_blocks],
                     "cliresolve: request sets x hostile server behaviour x cut points of a recorded byte stream x Close/timeout. " + WFAIL_NOTE + STALL_NOTE)
     return run_pool(ctx, out)
 
@@ -973,8 +1019,10 @@ def _run_c11(ctx):
 
 
 def run_c02(ctx):
-    return run_areas(ctx, ["cliresp", "cliflow", "cliwfail"], [mon_resp, mon_resolve_deadlock_only],
-                     "cliresp: request shapes x response orders, chunkings, paddings, representation choices, CONTINUATION cuts; "
+    return run_areas(ctx, ["cliresp", "cliflow", "cliwfail"], [mon_resp, mon_resolve_deadlock_only, mon_header_blocks],
+                     "cliresp: request shapes x response orders, chunkings, paddings, representation choices, CONTINUATION cuts; request header blocks of "
+                     "MAX_FRAME_SIZE-1/+0/+1, twice that, 40000 octets and two and a half frames towards servers announcing no, 16384, 20000, 65536, 2^20 "
+                     "MAX_FRAME_SIZE (HEADERS + CONTINUATION reassembled by the scripted server: the request on the wire is the request given); "
                      "cliflow: several uploads (buffered and streamed) held back and released by window schedules, every body octet checked against its request's pattern. " + WFAIL_NOTE)
 
 
@@ -983,7 +1031,11 @@ def run_c14c(ctx):
 
 
 def run_c18c(ctx):
-    return run_areas(ctx, ["clisettings"], [mon_settings, mon_ledger], "clisettings: SETTINGS subsets/repeats interleaved with requests.")
+    return run_areas(ctx, ["clisettings"], [mon_settings, mon_ledger, mon_header_blocks],
+                     "clisettings: SETTINGS subsets/repeats interleaved with requests; request header blocks of MAX_FRAME_SIZE-1/+0/+1, twice that +-1, "
+                     "40000 octets and two and a half frames towards servers that announced no MAX_FRAME_SIZE, 16384, 20000, 65536, 2^20 (without body: END_STREAM "
+                     "on the HEADERS frame; buffered and streamed bodies), and a server that raises and lowers it between requests: every HEADERS, "
+                     "CONTINUATION and DATA frame within the value announced last, every block contiguous and ended.")
 
 
 def run_c20c(ctx):
@@ -1123,10 +1175,10 @@ def run_pool(ctx, out):
 def register(PROPS):
     PROPS.update({
         "C07": dict(module="H2.Props.C07", run=run_c07, assumptions=ASSUME, replay=make_replay([mon_ledger, mon_resolve_deadlock_only, mon_stall_blocking_only])),
-        "C12": dict(module="H2.Props.C12", run=run_c12, assumptions=ASSUME, replay=make_replay([mon_resolve, mon_stall, mon_errvalue])),
+        "C12": dict(module="H2.Props.C12", run=run_c12, assumptions=ASSUME, replay=make_replay([mon_resolve, mon_stall, mon_errvalue, mon_header_blocks])),
         "C11": dict(module="H2.Props.C11", run=run_c11, assumptions=ASSUME, replay=make_replay([mon_goaway, mon_resolve_deadlock_only, mon_errvalue])),
-        "C02": dict(module="H2.Props.C02", run=run_c02, assumptions=ASSUME, replay=make_replay([mon_resp, mon_resolve_deadlock_only])),
+        "C02": dict(module="H2.Props.C02", run=run_c02, assumptions=ASSUME, replay=make_replay([mon_resp, mon_resolve_deadlock_only, mon_header_blocks])),
         "C14c": dict(module="H2.Props.C14c", run=run_c14c, assumptions=ASSUME, replay=make_replay([mon_credit])),
-        "C18c": dict(module="H2.Props.C18c", run=run_c18c, assumptions=ASSUME, replay=make_replay([mon_settings, mon_ledger])),
+        "C18c": dict(module="H2.Props.C18c", run=run_c18c, assumptions=ASSUME, replay=make_replay([mon_settings, mon_ledger, mon_header_blocks])),
         "C20c": dict(module="H2.Props.C20c", run=run_c20c, assumptions=ASSUME, replay=make_replay([mon_msg])),
     })
